@@ -24,7 +24,7 @@ extern struct __freelist *__flp;
 extern int __allocation_counter __attribute__((weak)); // debug bookkeeping; optional
 
 // ---- what the allocator needs from its environment
-static const size_t ARENA = 1 << 15;
+static const size_t ARENA = 1 << 21; // the BFS universes stay below 4 KiB, the long histories need ~1.3 MiB
 alignas(64) char _heap_start[ARENA]; // `extern char _heap_start;` in lin_malloc.cpp
 extern "C" int critical_context_level(void) { return 0; }
 
@@ -509,6 +509,170 @@ struct Heap : mc::Model
 std::unordered_set<string> Heap::memo_ok;
 Heap *Heap::active = nullptr;
 
+// ---------------------------------------------------------------- long-lived histories (tree shape)
+// As many simultaneously live blocks as the port allows (assert(__allocation_counter < 100) -> 99), mixed sizes
+// from one byte to beyond 2^16, freed in LIFO / FIFO / stride-7 order, twice. Same oracles as the BFS: placement,
+// alignment, disjointness (blocks and headers), contents, and the heap back at its initial break when all is freed.
+static const size_t SZL[] = {1, 64, 65, 200, 1000, 70000};
+static const int NLONG = 99;
+static const char *LORD[] = {"lifo", "fifo", "stride7"};
+
+struct LBlk
+{
+    long off;
+    size_t req;
+    unsigned tag;
+};
+static inline unsigned char lpat(unsigned tag, size_t j) { return (unsigned char)(0x3D + tag * 29 + j * 7 + (j >> 8) * 3); }
+
+struct LongRun
+{
+    vector<LBlk> blk;
+    bool failed = false;
+    size_t hw = 0;
+    void fail(const char *phase, const char *kind, const string &what)
+    {
+        mc::violation(string("C10.heap.long.") + phase + "." + kind, "%s (%zu blocks live, break at %ld)", what.c_str(), blk.size(),
+                      __brkval ? (long)(__brkval - A) : -1L);
+        failed = true;
+    }
+    // full = every byte; otherwise small blocks in full and the first/last 64 bytes of large ones
+    bool intact(const LBlk &b, bool full, size_t &at)
+    {
+        for (size_t j = 0; j < b.req; j++)
+        {
+            if (!full && b.req > 1024 && j == 64)
+                j = b.req - 64;
+            if ((unsigned char)A[b.off + j] != lpat(b.tag, j))
+            {
+                at = j;
+                return false;
+            }
+        }
+        return true;
+    }
+    bool all_intact(const char *phase, bool full)
+    {
+        for (auto &b : blk)
+        {
+            size_t at;
+            if (!intact(b, full, at))
+            {
+                fail(phase, "contents", mc::fmt("live block at offset %ld (requested %zu) changed at byte %zu", b.off, b.req, at));
+                return false;
+            }
+        }
+        return true;
+    }
+    void alloc_all(const char *phase, int rot, bool via_realloc)
+    {
+        mc::crash_context("C10.heap.long.%s", phase);
+        for (int i = 0; (int)blk.size() < NLONG && !failed; i++)
+        {
+            size_t s = SZL[(i + rot) % 6];
+            char *q = (char *)(via_realloc ? lin_realloc(nullptr, s) : lin_malloc(s));
+            if (__brkval && (size_t)(__brkval - A) > hw)
+                hw = __brkval - A;
+            if (hw + 4096 > ARENA)
+                mc::harness_error("C10 heap long: arena too small");
+            if (!q)
+                return fail(phase, "null", mc::fmt("allocation #%d of %zu bytes returned NULL", i + 1, s));
+            if (q < A + sizeof(size_t) || !__brkval || q + s > __brkval)
+                return fail(phase, "outside_arena", mc::fmt("allocation #%d: [%ld,%ld) is not inside [heap start, break)", i + 1, (long)(q - A), (long)(q - A + s)));
+            if ((uintptr_t)q % alignof(size_t))
+                return fail(phase, "misaligned", mc::fmt("allocation #%d at offset %ld", i + 1, (long)(q - A)));
+            LBlk b{(long)(q - A), s, (unsigned)(i * 3 + rot)};
+            for (auto &o : blk)
+                if (b.off - (long)sizeof(size_t) < o.off + (long)o.req && o.off - (long)sizeof(size_t) < b.off + (long)b.req)
+                    return fail(phase, "overlap", mc::fmt("allocation #%d [%ld,%ld) overlaps the live block (+header) at [%ld,%ld)", i + 1, b.off - 8, b.off + (long)b.req,
+                                                          o.off - 8, o.off + (long)o.req));
+            for (size_t j = 0; j < s; j++)
+                A[b.off + j] = (char)lpat(b.tag, j);
+            blk.push_back(b);
+            all_intact(phase, false);
+        }
+        if (!failed)
+            all_intact(phase, true);
+    }
+    // free the first `count` blocks of the given order (count < 0: all, and the heap must be back at its initial break)
+    void free_some(int ord, int count)
+    {
+        string ph = string(count < 0 ? "free_" : "free_half_") + LORD[ord];
+        mc::crash_context("C10.heap.long.%s", ph.c_str());
+        vector<int> seq;
+        int n = (int)blk.size();
+        if (ord == 0)
+            for (int i = n - 1; i >= 0; i--)
+                seq.push_back(i);
+        else if (ord == 1)
+            for (int i = 0; i < n; i++)
+                seq.push_back(i);
+        else
+            for (int s0 = 0; s0 < 7; s0++)
+                for (int i = s0; i < n; i += 7)
+                    seq.push_back(i);
+        vector<LBlk> all = blk;
+        vector<bool> gone(n, false);
+        if (count >= 0 && count < n)
+            seq.resize(count);
+        for (int k : seq)
+        {
+            size_t at;
+            if (!intact(all[k], true, at))
+                return fail(ph.c_str(), "contents", mc::fmt("block at offset %ld (requested %zu) changed at byte %zu before it was freed", all[k].off, all[k].req, at));
+            lin_free(A + all[k].off);
+            gone[k] = true;
+            blk.clear();
+            for (int i = 0; i < n; i++)
+                if (!gone[i])
+                    blk.push_back(all[i]);
+            if (!all_intact(ph.c_str(), false))
+                return;
+            // bounded free-list walk
+            char *top = __brkval ? __brkval : A;
+            int cnt = 0;
+            for (struct __freelist *f = __flp; f; f = f->nx)
+                if ((char *)f < A || (char *)f + sizeof(struct __freelist) > top || ++cnt > NLONG + 1)
+                    return fail(ph.c_str(), "free_list_corrupt", "the free list leaves [heap start, break) or does not end");
+        }
+        if (count < 0 && (__flp != nullptr || !(__brkval == nullptr || __brkval == A)))
+            fail(ph.c_str(), "memory_lost", mc::fmt("all %d blocks freed but the free list is %s", n, __flp ? "not empty" : "empty"));
+    }
+};
+
+static void heap_long_case()
+{
+    int c = mc::choose(3 * 3 * 6 * 2);
+    int ord1 = c % 3, ord2 = c / 3 % 3, rot = c / 9 % 6, api = c / 54;
+    mc::describe("99 live blocks of sizes {1,64,65,200,1000,70000} rotated by %d via %s: free half in %s order, allocate into the holes, free all in %s order, allocate again, free all", rot, api ? "realloc(NULL,s)" : "malloc(s)", LORD[ord1],
+                 LORD[ord2]);
+    if (Heap::active)
+    {
+        Heap::active->save();
+        Heap::active = nullptr;
+    }
+    memset(A, 0xEE, std::min(g_dirty + 64, ARENA));
+    __brkval = nullptr;
+    __flp = nullptr;
+    if (&__allocation_counter)
+        __allocation_counter = 0;
+    LongRun r;
+    r.alloc_all("alloc", rot, api);
+    if (!r.failed)
+        r.free_some(ord1, NLONG / 2); // leaves holes of every size, also > 2^16
+    if (!r.failed)
+        r.alloc_all("alloc_into_holes", rot + 1, api); // exact fit / best fit / split / extend at the large sizes
+    if (!r.failed)
+        r.free_some(ord2, -1);
+    if (!r.failed)
+        r.alloc_all("alloc_again", rot + 2, api);
+    if (!r.failed)
+        r.free_some(ord1, -1);
+    g_dirty = std::max(g_dirty, r.hw);
+    mc::nontrivial(); // every case runs at the allocator's own live-block limit and crosses 2^16 in sizes and offsets
+    mc::outcome(mc::fmt("hw %zu %s", r.hw, r.failed ? "violation" : "ok"));
+}
+
 MC_INIT
 {
     // K = bound on simultaneously live blocks. The state space for a fixed K is finite (the break is
@@ -522,6 +686,7 @@ MC_INIT
         o.thorough_only = thorough_only;
         mc::add_bfs(mc::fmt("heap_live%d", k), [k] { return std::unique_ptr<mc::Model>(new Heap(k)); }, o);
     };
+    mc::add_check("heap_long", heap_long_case);
     add(2, 1000, 1000, false); // fix-point (depth 38)
     add(3, 9, 12, false);
     add(4, 8, 10, false);
